@@ -421,6 +421,7 @@ def run_episode(env, cfg):
     hung = [c["i"] for c, t in zip(callers, tasks) if not t.done()]
     t_answered = loop.time()
     writes_at_answer = len(ether.writes)
+    delivered_at_answer = len(ether.delivered)
     # phase 2: drain whatever is still pending (late packets arrive while idle)
     if cfg.get("late_packets", True) is False:
         ether.cancel_pending()
@@ -436,6 +437,7 @@ def run_episode(env, cfg):
         "cmd_left": ctxt._cmd is not None,
         "loop_excs": _excs(loop),
         "delivered": ether.delivered,
+        "delivered_at_answer": delivered_at_answer,
         "t_answered": t_answered,
         "multiplier": ctxt._multiplier,
     }
@@ -607,7 +609,7 @@ def oracle_c08(env, cfg, obs):
         for a, b in zip(ws, ws[1:]):
             env.check(b - a >= 0.5, "C08:retry-not-before-base-wait")
     # unanswered attempts: exact doubling 0.5, 1, 2, 4 (fresh back-off, nothing delivered)
-    if not obs["delivered"] and len(obs["callers"]) == 1:
+    if not obs["delivered_at_answer"] and len(obs["callers"]) == 1 and not cfg.get("impersonate"):
         ws = per.get(0, [])
         for j, (a, b) in enumerate(zip(ws, ws[1:])):
             env.check(b - a == 0.5 * 2 ** min(j, 3), "C08:wait-doubles-up-to-8x", info=j)
